@@ -340,6 +340,98 @@ Proof.
     + rewrite nth_error_map, Hn. cbn. exact IH.
 Qed.
 
+(* ---------- every linearized operation of a quiescent state has been acknowledged with the reply computed at its
+   linearization point ---------- *)
+Definition Coh (s : state) (h : list hevent) : Prop :=
+  forall i k r, In (HLin i k r) h ->
+    exists o, nth_error (ops s) i = Some o /\
+      (opc o = PDone (ROk r) \/ (opc o = PReplied (ROk r) /\ In (HRep i (ROk r)) h)).
+
+Lemma op_step_done : forall g i o e g' o' r0, op_step g i o e = Some (g', o') ->
+  (opc o = PDone r0 -> (exists j, e = EvReply j) /\ opc o' = PReplied r0) /\ (opc o = PReplied r0 -> False).
+Proof.
+  intros g i [c p cl] e g' o' r0 H. unfold op_step in H. cbn [opc ocmd ocl] in *.
+  split; intros E; subst p; destruct e; try discriminate; inversion H; subst; cbn; eauto.
+Qed.
+
+Lemma cl_step_pc : forall g o e g' o', cl_step g o e = Some (g', o') -> opc o' = opc o.
+Proof.
+  intros g [c p cl] e g' o' H. unfold cl_step in H. cbn [ocl] in H.
+  destruct e; try discriminate; destruct cl; inversion H; subst; reflexivity.
+Qed.
+
+Lemma coh_step : forall s e s1 h, Coh s h -> step s e = Some s1 -> Coh s1 (h ++ hist_step s e).
+Proof.
+  intros s e s1 h C Hs i k r Hin. apply in_app_or in Hin. destruct Hin as [Hin|Hin].
+  - (* an older linearization point *)
+    destruct (C _ _ _ Hin) as (o & Hn & Ho).
+    unfold step in Hs. destruct (ev_op e) as [j|] eqn:Eo.
+    + assert (Hs' : match nth_error (ops s) j with
+                    | Some o => match (if is_cl_event e then cl_step (gl s) o e else op_step (gl s) j o e) with
+                                | Some (g', o') => Some (mkState g' (upd j o' (ops s)))
+                                | None => None
+                                end
+                    | None => None
+                    end = Some s1).
+      { destruct e; try exact Hs; discriminate. }
+      clear Hs. destruct (nth_error (ops s) j) as [oj|] eqn:Hj; [|discriminate].
+      destruct (Nat.eq_dec j i) as [->|N].
+      * assert (oj = o) by congruence. subst oj.
+        destruct (is_cl_event e) eqn:Ec.
+        -- destruct (cl_step (gl s) o e) as [[g' o']|] eqn:E; inversion Hs'; subst. cbn [ops].
+           exists o'. split; [eapply nth_error_upd_eq; eauto|]. rewrite (cl_step_pc _ _ _ _ _ E).
+           destruct Ho as [Ho|[Ho1 Ho2]]; [left; auto|right; split; auto; apply in_or_app; auto].
+        -- destruct (op_step (gl s) i o e) as [[g' o']|] eqn:E; inversion Hs'; subst. cbn [ops].
+           exists o'. split; [eapply nth_error_upd_eq; eauto|].
+           destruct Ho as [Ho|[Ho1 Ho2]].
+           ++ destruct (op_step_done _ _ _ _ _ _ (ROk r) E) as [X _]. destruct (X Ho) as [[j Ej] Ep]. subst e.
+              cbn in Eo. inversion Eo; subst j. right. split; auto. apply in_or_app. right.
+              cbn. rewrite Hn, Ho. left. reflexivity.
+           ++ destruct (op_step_done _ _ _ _ _ _ (ROk r) E) as [_ X]. destruct (X Ho1).
+      * exists o. split.
+        -- destruct (if is_cl_event e then cl_step (gl s) oj e else op_step (gl s) j oj e) as [[g' o']|]; inversion Hs'; subst.
+           cbn [ops]. rewrite nth_error_upd_neq; auto.
+        -- destruct Ho as [Ho|[Ho1 Ho2]]; [left; auto|right; split; auto; apply in_or_app; auto].
+    + exists o. split.
+      * destruct e; cbn in Eo; try discriminate;
+          try (destruct (glob_step (gl s) (ops s) _) as [g'|]; inversion Hs; subst; exact Hn; fail).
+        inversion Hs; subst. cbn [ops]. rewrite nth_error_app1; auto. apply nth_error_Some. congruence.
+      * destruct Ho as [Ho|[Ho1 Ho2]]; [left; auto|right; split; auto; apply in_or_app; auto].
+  - (* the linearization point of this very step *)
+    destruct e; cbn in Hin; try contradiction.
+    + destruct Hin as [X|[]]; discriminate.
+    + unfold step in Hs. cbn [ev_op is_cl_event] in Hs.
+      destruct (nth_error (ops s) i0) as [[c p cl]|] eqn:Hn; [|contradiction].
+      cbn in Hin. destruct Hin as [X|[]]. inversion X; subst.
+      unfold op_step in Hs. cbn [opc ocmd ocl] in Hs. destruct p; try discriminate. inversion Hs; subst. cbn [ops].
+      eexists. split; [eapply nth_error_upd_eq; eauto|]. left. reflexivity.
+    + unfold step in Hs. cbn [ev_op is_cl_event] in Hs.
+      destruct (nth_error (ops s) i0) as [[c p cl]|] eqn:Hn; [|contradiction].
+      cbn in Hin. destruct Hin as [X|[]]. inversion X; subst.
+      unfold op_step in Hs. cbn [opc ocmd ocl] in Hs. destruct p; try discriminate. inversion Hs; subst. cbn [ops].
+      eexists. split; [eapply nth_error_upd_eq; eauto|]. left. reflexivity.
+    + destruct (nth_error (ops s) i0) as [o|]; [destruct (opc o)|]; cbn in Hin; try contradiction;
+        destruct Hin as [X|[]]; discriminate.
+Qed.
+
+Lemma coh_run : forall evs s s' h0, Coh s h0 -> run s evs = Some s' -> Coh s' (h0 ++ history s evs).
+Proof.
+  induction evs as [|e r IH]; intros s s' h0 C H; cbn in H.
+  - inversion H; subst. cbn. rewrite app_nil_r. exact C.
+  - destruct (step s e) as [s1|] eqn:Es; [|discriminate].
+    rewrite (history_cons _ _ _ _ Es), app_assoc. apply IH; auto. apply coh_step; auto.
+Qed.
+
+Theorem acknowledged : forall s0 evs st, run (init s0) evs = Some st -> quiescent st = true ->
+  forall i k r, In (HLin i k r) (history (init s0) evs) -> In (HRep i (ROk r)) (history (init s0) evs).
+Proof.
+  intros s0 evs st R Q i k r Hin.
+  assert (C : Coh st ([] ++ history (init s0) evs)).
+  { apply coh_run; auto. intros a b c []. }
+  cbn [app] in C. destruct (C _ _ _ Hin) as (o & Hn & [Ho|[_ Ho]]); auto.
+  unfold quiescent in Q. eapply forallb_nth in Q; eauto. cbn in Q. rewrite Ho in Q. discriminate.
+Qed.
+
 (* ---------- the three statements ---------- *)
 Theorem linearizable : forall s0 evs st,
   wf_init s0 -> run (init s0) evs = Some st ->
@@ -375,7 +467,8 @@ Theorem final_state : forall s0 evs st,
   is_passed (scan (gl st)) = true -> committed (gl st) = true -> quiescent st = true ->
   src (gl st) = None /\
   register_spec (val s0) (history (init s0) evs) = Some (val (dst (gl st))) /\
-  val (dst (gl st)) = final_value (val s0) (history (init s0) evs).
+  val (dst (gl st)) = final_value (val s0) (history (init s0) evs) /\
+  (forall i k r, In (HLin i k r) (history (init s0) evs) -> In (HRep i (ROk r)) (history (init s0) evs)).
 Proof.
   intros s0 evs st W R P1 P2 P3 Hp Hc Hq.
   assert (I : Inv st) by (eapply reachable_inv; eauto; repeat split; auto).
@@ -386,7 +479,7 @@ Proof.
   assert (RS : register_spec (val s0) (history (init s0) evs) = Some (val (dst (gl st)))).
   { rewrite <- EL. assert (E : val s0 = L (gl (init s0))) by reflexivity. rewrite E.
     apply run_register_spec; auto. apply inv_init; auto. repeat split; auto. }
-  split; auto. split; auto. apply register_spec_final; auto.
+  split; auto. split; auto. split; [apply register_spec_final; auto|]. eapply acknowledged; eauto.
 Qed.
 
 Theorem ttl_preserved : forall s0 evs s e s',
